@@ -406,4 +406,36 @@ func checkWindowOrder(c *Ctx, prop string) {
 		}
 	}
 	c.Require(prop+".O2 scan-most-recent-first", FuncKey(con), p.Pos(con.Pos()), "the window is scanned from index 0 upwards and the verdict of the first header by the same generator is returned", asc && firstMatch, "index: "+detail)
+	// O3: the chain-level answer is the window scan's. Every successful return of the API
+	// entry hands back what contradicting() said about this header on the loaded window (or a
+	// constant under a branch that tested exactly that answer); an early "not contradicting"
+	// decided from anything the header claims about itself lets a generator choose its verdict.
+	if api := c.Anchor("pkg/consensus/liskbft.(*API).IsHeaderContradictingChain"); api != nil {
+		af := factsOf(api)
+		n := 0
+		isScan := func(t *Term) bool {
+			return t != nil && t.Op == "call" && strings.HasSuffix(t.Sym, "liskbft.BFTVotes).contradicting")
+		}
+		for _, r := range Returns(api) {
+			rf := af
+			if r.Parent() != api {
+				rf = factsOf(r.Parent())
+			}
+			k := classifyReturn(rf, r)
+			if k == RetErr || len(r.Results) == 0 {
+				continue
+			}
+			n++
+			t := rf.Term(r.Results[0])
+			ok := isScan(t)
+			if !ok {
+				if cst, isC := stripConv(r.Results[0]).(*ssa.Const); isC && cst.Value != nil {
+					want := cst.Value.String() == "true"
+					ok = rf.EveryPathHas(r.Block(), func(f Fact) bool { return !f.IsCmp && isScan(f.B) && f.Truth == want })
+				}
+			}
+			c.Require(prop+".O3 verdict-is-the-window-scan", FuncKey(api)+": return "+t.String(), p.InstrPos(r), "a successful answer is the result of scanning the stored window for this header", ok, "returns "+t.String())
+		}
+		c.MinInstances(prop+".O3 verdict-is-the-window-scan", n, 1)
+	}
 }
